@@ -39,7 +39,9 @@ Definition date_set_day (p : pdate) (d : Z) : result pdate := date_new (d_year p
 Definition date_set_month (p : pdate) (m : Z) : result pdate := date_new (d_year p) m (d_day p).
 Definition date_set_ymd (p : pdate) (y m d : Z) : result pdate := date_new y m d.
 
-(* calendar.monthcalendar(y, m) with the default firstweekday (Monday): list of week rows, 0 outside the month *)
+(* calendar.Calendar(calendar.MONDAY).monthdayscalendar(y, m) — what the month helpers read: list of week rows laid out from
+   Monday, 0 outside the month (= calendar.monthcalendar(y, m) under the default calendar.firstweekday(); the helpers are
+   modelled under every other process-wide setting in Model/WeekdayZone.v (B), proved equal in Proofs/C16FirstWeekday.v) *)
 Definition mc_first (y m : Z) : Z := weekday0 (ymd2ord y m 1).
 Definition mc_rows (y m : Z) : Z := (mc_first y m + dim y m + 6) / 7.
 Definition mc_cell (y m row col : Z) : Z :=
